@@ -722,14 +722,14 @@ pub fn refresh(
 ) -> Result<(), Error> {
     verify(msk, usk)?;
 
-    let usk_id = take(&mut usk.id);
-    let new_id = msk.tsk.refresh_id(rng, usk_id)?;
+    // The USK is only modified once all fallible steps succeeded: a failed
+    // refresh must leave it untouched.
+    let new_id = msk.tsk.refresh_id(rng, usk.id.clone())?;
 
-    let usk_rights = take(&mut usk.secrets);
     let new_rights = if keep_old_rights {
-        refresh_coordinate_keys(msk, usk_rights)
+        refresh_coordinate_keys(msk, usk.secrets.clone())
     } else {
-        msk.get_latest_right_sk(usk_rights.into_keys())
+        msk.get_latest_right_sk(usk.secrets.iter().map(|(r, _)| r).cloned())
             .collect::<Result<RevisionVec<Right, RightSecretKey>, Error>>()?
     };
 
